@@ -2146,6 +2146,168 @@ def t16(ast):
     return defs
 
 
+# ------------------------------------------------------------------------------------ T17
+# `format_read_args` and `format_test_args`: recognised statement by statement (the variable callback, the
+# dispatch on the variable's type, the advance to the next variable, the hand-over to the handler or the
+# flush); the Lean text is then fixed.
+
+VARTYPE_FN = [("CAT_VAR_INT_DEC", "format_int_decimal"), ("CAT_VAR_UINT_DEC", "format_uint_decimal"),
+              ("CAT_VAR_NUM_HEX", "format_num_hexadecimal"), ("CAT_VAR_BUF_HEX", "format_buffer_hexadecimal"),
+              ("CAT_VAR_BUF_STRING", "format_buffer_string")]
+
+
+def _is_call_self_fsm(n, name):
+    e = strip(n)
+    if e.get("kind") != "CallExpr" or strip(e["inner"][0]).get("referencedDecl", {}).get("name") != name:
+        return False
+    args = [strip(a).get("referencedDecl", {}).get("name") for a in e["inner"][1:]]
+    return args == ["self", "fsm"]
+
+
+def _ret_is(st, name):
+    sts = [x for x in _block(st) if not is_noise(x)]
+    return len(sts) >= 1 and sts[-1].get("kind") == "ReturnStmt" and sts[-1].get("inner") and \
+        strip(sts[-1]["inner"][0]).get("referencedDecl", {}).get("name") == name
+
+
+def _err_and_busy(st):
+    """{ end_processing_with_error(self, fsm); return CAT_STATUS_BUSY; }"""
+    sts = [x for x in _block(st) if not is_noise(x)]
+    return len(sts) == 2 and _is_call_self_fsm(sts[0], "end_processing_with_error") and _ret_is(st, "CAT_STATUS_BUSY")
+
+
+def _stat_next(sts2):
+    """stat = next_format_var_by_fsm(self, fsm);  if (stat != CAT_STATUS_OK) return stat;   (two statements; the first may be
+    a declaration with initialiser)"""
+    a, b = sts2
+    if a.get("kind") == "DeclStmt":
+        d = a["inner"][0]
+        ok = d.get("name") == "stat" and d.get("inner") and _is_call_self_fsm(d["inner"][-1], "next_format_var_by_fsm")
+    else:
+        e = strip(a)
+        ok = e.get("kind") == "BinaryOperator" and e.get("opcode") == "=" and strip(e["inner"][0]).get("referencedDecl", {}).get("name") == "stat" \
+            and _is_call_self_fsm(e["inner"][1], "next_format_var_by_fsm")
+    if not ok or b.get("kind") != "IfStmt" or len(b["inner"]) != 2:
+        return False
+    c = strip(b["inner"][0])
+    if not (c.get("kind") == "BinaryOperator" and c.get("opcode") == "!=" and strip(c["inner"][0]).get("referencedDecl", {}).get("name") == "stat"
+            and strip(c["inner"][1]).get("referencedDecl", {}).get("name") == "CAT_STATUS_OK"):
+        return False
+    r = [x for x in _block(b["inner"][1]) if not is_noise(x)]
+    return len(r) == 1 and r[0].get("kind") == "ReturnStmt" and strip(r[0]["inner"][0]).get("referencedDecl", {}).get("name") == "stat"
+
+
+def t17(ast):
+    out = []
+    # ---- format_test_args
+    _, body = find_fn(ast, "format_test_args")
+    sts = [x for x in body.get("inner", []) if not is_noise(x)]
+    ok = len(sts) == 6 and sts[0].get("kind") == "IfStmt" and sts[3].get("kind") == "IfStmt"
+    if ok:
+        c = strip(sts[0]["inner"][0])
+        ok = c.get("kind") == "BinaryOperator" and c.get("opcode") == "<" and _is_call_self_fsm(c["inner"][0], "format_info_type") \
+            and strip(c["inner"][1]).get("value") == "0" and _err_and_busy(sts[0]["inner"][1]) and len(sts[0]["inner"]) == 2
+        ok = ok and _stat_next(sts[1:3])
+        c3 = strip(sts[3]["inner"][0])
+        ok = ok and c3.get("kind") == "BinaryOperator" and c3.get("opcode") == "==" and _is_call_self_fsm(c3["inner"][0], "print_response_test") \
+            and strip(c3["inner"][1]).get("value") == "0" and _ret_is(sts[3]["inner"][1], "CAT_STATUS_BUSY") and len(sts[3]["inner"]) == 2
+        ok = ok and _is_call_self_fsm(sts[4], "end_processing_with_error") and sts[5].get("kind") == "ReturnStmt" \
+            and strip(sts[5]["inner"][0]).get("referencedDecl", {}).get("name") == "CAT_STATUS_BUSY"
+    if not ok:
+        raise Unrecognised("T17: format_test_args has an unrecognised shape")
+    out.append("/-- `format_test_args` of src/cat.c (`format_info_type` fetches the current variable through the cached pointer: the\n"
+               "model's two ghost checks stand for the dereferences) -/\n"
+               "def format_test_args (D : Desc) (s : St) (f : Fsm) : St × Int :=\n"
+               "  let s : St := s.chkUb (s.cmdOf f).isSome;\n"
+               "  let s : St := s.chkUb (s.idx f < (D.cmdD (s.cmdOf f)).varNum);\n"
+               "  let r := formatInfoType D s f ((D.cmdD (s.cmdOf f)).varAt (s.idx f));\n"
+               "  if !r.2 then (endError D r.1 f, Gen.CAT_STATUS_BUSY)\n"
+               "  else\n"
+               "    let n := nextFormatVar D r.1 f;\n"
+               "    if n.2 then (n.1, Gen.CAT_STATUS_BUSY)          -- `return stat`: the only status other than OK it returns is BUSY\n"
+               "    else\n"
+               "      let p := printResponseTest D n.1 f;\n"
+               "      if p.2 then (p.1, Gen.CAT_STATUS_BUSY)\n"
+               "      else (endError D p.1 f, Gen.CAT_STATUS_BUSY)")
+    # ---- format_read_args
+    _, body = find_fn(ast, "format_read_args")
+    sts = [x for x in body.get("inner", []) if not is_noise(x)]
+    sts = [x for x in sts if not (x.get("kind") == "DeclStmt" and x["inner"][0].get("name") == "stat" and len(x["inner"][0].get("inner", [])) == 0)]
+    ok = len(sts) == 10
+    if ok:
+        d = sts[0]["inner"][0] if sts[0].get("kind") == "DeclStmt" else {}
+        ok = d.get("name") == "var" and d.get("inner") and _is_call_self_fsm(d["inner"][-1], "get_var_by_fsm")
+        # if ((var->read != NULL) && (var->read(var) != 0)) { error; return BUSY; }
+        c = strip(sts[1]["inner"][0]) if sts[1].get("kind") == "IfStmt" else {}
+        if ok and c.get("kind") == "BinaryOperator" and c.get("opcode") == "&&":
+            l, r = strip(c["inner"][0]), strip(c["inner"][1])
+            lm = strip(l["inner"][0]) if l.get("kind") == "BinaryOperator" and l.get("opcode") == "!=" else {}
+            rc = strip(r["inner"][0]) if r.get("kind") == "BinaryOperator" and r.get("opcode") == "!=" else {}
+            callee = strip(rc["inner"][0]) if rc.get("kind") == "CallExpr" else {}
+            ok = (lm.get("kind") == "MemberExpr" and lm.get("name") == "read" and strip(lm["inner"][0]).get("referencedDecl", {}).get("name") == "var"
+                  and callee.get("kind") == "MemberExpr" and callee.get("name") == "read"
+                  and strip(callee["inner"][0]).get("referencedDecl", {}).get("name") == "var" and len(rc["inner"]) == 2
+                  and strip(rc["inner"][1]).get("referencedDecl", {}).get("name") == "var" and strip(r["inner"][1]).get("value") == "0"
+                  and _err_and_busy(sts[1]["inner"][1]) and len(sts[1]["inner"]) == 2)
+        else:
+            ok = False
+        # switch (var->type) { case T: stat = format_T(self, fsm); break; ... default: return CAT_STATUS_ERROR; }
+        if ok and sts[2].get("kind") == "SwitchStmt":
+            sc_ = strip(sts[2]["inner"][0])
+            ok = sc_.get("kind") == "MemberExpr" and sc_.get("name") == "type" and strip(sc_["inner"][0]).get("referencedDecl", {}).get("name") == "var"
+            seen = {}
+            for labels, stmts in switch_arms(sts[2], None, None):
+                b2 = [x for x in stmts if not is_noise(x) and x.get("kind") != "BreakStmt"]
+                for l in labels:
+                    if l == "default":
+                        ok = ok and len(b2) == 1 and b2[0].get("kind") == "ReturnStmt" and \
+                            strip(b2[0]["inner"][0]).get("referencedDecl", {}).get("name") == "CAT_STATUS_ERROR"
+                        continue
+                    e = strip(b2[0]) if len(b2) == 1 else {}
+                    okk = e.get("kind") == "BinaryOperator" and e.get("opcode") == "=" and strip(e["inner"][0]).get("referencedDecl", {}).get("name") == "stat"
+                    fn = strip(strip(e["inner"][1])["inner"][0]).get("referencedDecl", {}).get("name") if okk and strip(e["inner"][1]).get("kind") == "CallExpr" else None
+                    okk = okk and _is_call_self_fsm(e["inner"][1], fn)
+                    if not okk:
+                        ok = False
+                    seen[l] = fn
+            ok = ok and seen == dict(VARTYPE_FN)
+        else:
+            ok = False
+        # if (stat < 0) { error; return BUSY; }
+        c = strip(sts[3]["inner"][0]) if ok and sts[3].get("kind") == "IfStmt" else {}
+        ok = ok and c.get("kind") == "BinaryOperator" and c.get("opcode") == "<" and strip(c["inner"][0]).get("referencedDecl", {}).get("name") == "stat" \
+            and strip(c["inner"][1]).get("value") == "0" and _err_and_busy(sts[3]["inner"][1]) and len(sts[3]["inner"]) == 2
+        ok = ok and _stat_next(sts[4:6])
+        d = sts[6]["inner"][0] if ok and sts[6].get("kind") == "DeclStmt" else {}
+        ok = ok and d.get("name") == "cmd" and d.get("inner") and _is_call_self_fsm(d["inner"][-1], "get_command_by_fsm")
+    if not ok:
+        raise Unrecognised("T17: format_read_args has an unrecognised shape")
+    VOID_FN_MODE[0] = False
+    try:
+        RETMAP[0] = {"CAT_STATUS_BUSY": "Gen.CAT_STATUS_BUSY"}
+        tail = _cps(sts[7:], "(s, Gen.CAT_STATUS_BUSY)", "        ")
+    finally:
+        RETMAP[0] = None
+    out.append("/-- `format_read_args` of src/cat.c -/\n"
+               "def format_read_args (D : Desc) (s : St) (f : Fsm) (i : SvcIn) : St × Int :=\n"
+               "  let s : St := s.chkUb (s.cmdOf f).isSome;\n"
+               "  let s : St := s.chkUb (s.idx f < (D.cmdD (s.cmdOf f)).varNum);\n"
+               "  let var := (D.cmdD (s.cmdOf f)).varAt (s.idx f);\n"
+               "  let cb := varReadCb D s f var i;                  -- (var->read != NULL) && (var->read(var) != 0), with the ghost event\n"
+               "  if cb.2 then (endError D cb.1 f, Gen.CAT_STATUS_BUSY)\n"
+               "  else\n"
+               "    let fv := formatVar D cb.1 f var;                -- the switch on var->type\n"
+               "    if !fv.2 then (endError D fv.1 f, Gen.CAT_STATUS_BUSY)\n"
+               "    else\n"
+               "      let n := nextFormatVar D fv.1 f;\n"
+               "      if n.2 then (n.1, Gen.CAT_STATUS_BUSY)        -- `return stat`: the only status other than OK it returns is BUSY\n"
+               "      else\n"
+               "        let s : St := n.1;\n"
+               "        let cmd := D.cmdD (s.cmdOf f);\n"
+               "        " + tail)
+    return out
+
+
 def t9(ast):
     defs = []
     for name in STEPS:
@@ -2164,7 +2326,8 @@ def t9(ast):
     defs += t14(ast)
     defs += t15(ast)
     defs += t16(ast)
-    hdr = ("/-\n  GENERATED by tools/translate.py from small step functions of src/cat.c (T9 - T16). Do not edit.\n"
+    defs += t17(ast)
+    hdr = ("/-\n  GENERATED by tools/translate.py from small step functions of src/cat.c (T9 - T17). Do not edit.\n"
            "  `Proofs/Steps.lean` proves the model's functions equal to these.\n-/\n"
            "import CatVerif.Model.Fsm\nnamespace Cat.Gen\nopen Cat St\nset_option linter.unusedVariables false\n\n")
     return hdr + "\n\n".join(defs) + "\n\nend Cat.Gen\n"
